@@ -209,3 +209,37 @@ func VH_C16_errors() {
 	vAssert(d.A == 1, "mustbind-same-type-copies")
 	vCover("errors")
 }
+
+// Bind answers for the value stored NOW: a first Bind of the key (through the JSON path), then the
+// key is rewritten by any of the store's writers, then Bind again — judged against the new value
+func VH_C16_storeSeq() {
+	v1, vk1 := c16Value()
+	st := NewSharedStore()
+	key := vNondet[string]("key")
+	st.Set(key, v1)
+	var first c16Outcome
+	p0 := vPanics(func() { first = c16Do(4, v1, vk1, func(d any) error { return st.Bind(key, d) }, false) })
+	vAssume(!p0)
+	_ = first
+	v2, vk2 := c16Value()
+	switch vChoice("rewrittenBy", 4) {
+	case 0:
+		vCover("rewritten-by-set")
+		st.Set(key, v2)
+	case 1:
+		vCover("rewritten-by-merge")
+		st.Merge(map[string]any{key: v2})
+	case 2:
+		vCover("rewritten-by-delete-and-merge")
+		st.Delete(key)
+		st.Merge(map[string]any{key: v2})
+	default:
+		vCover("rewritten-by-clear-and-set")
+		st.Clear()
+		st.Set(key, v2)
+	}
+	shape := vChoice("shape", c16Shapes)
+	var got c16Outcome
+	p := vPanics(func() { got = c16Do(shape, v2, vk2, func(d any) error { return st.Bind(key, d) }, false) })
+	c16Check(v2, vk2, shape, got, p)
+}
